@@ -64,6 +64,9 @@ Qed.
 Lemma tz_finite_neg : forall m e, tz (S754_finite true m e) = - tz (S754_finite false m e).
 Proof. intros m e. unfold tz, trunc_Z. destruct (0 <=? e); reflexivity. Qed.
 
+Lemma pcmp_Z : forall m p, Pos.compare_cont Eq m p = (Z.pos m ?= Z.pos p).
+Proof. reflexivity. Qed.
+
 (* comparison of a well-formed finite float with +2^k, k >= 53, decided on the integral parts *)
 Lemma cmp_pos_pow2 : forall m e k, valid (S754_finite false m e) = true -> 53 <= k ->
   SFcompare (S754_finite false m e) (S754_finite false 4503599627370496 (k - 52)) =
@@ -73,26 +76,181 @@ Proof.
   assert (P52 : Z.pos 4503599627370496 = 2 ^ 52) by reflexivity.
   unfold SFcompare. destruct (Z.compare_spec e (k - 52)) as [Eq|Lt|Gt].
   - (* same exponent *)
-    subst e. f_equal. unfold tz, trunc_Z.
+    subst e. unfold tz, trunc_Z.
     replace (0 <=? k - 52) with true by (symmetry; apply Z.leb_le; lia).
+    rewrite pcmp_Z, P52. f_equal.
     replace (2 ^ k) with (2 ^ 52 * 2 ^ (k - 52)) by (rewrite <- Z.pow_add_r by lia; f_equal; lia).
-    rewrite <- Zmult_compare_compat_r by (apply Z.lt_gt; apply Z.pow_pos_nonneg; lia).
-    rewrite <- P52. rewrite <- Pos2Z.inj_compare. reflexivity.
+    apply Zmult_compare_compat_r. apply Z.lt_gt. apply Z.pow_pos_nonneg; lia.
   - f_equal. symmetry. apply Z.compare_lt_iff. unfold tz, trunc_Z.
     destruct (0 <=? e) eqn:E.
     + apply Z.leb_le in E.
-      assert (2 ^ 53 * 2 ^ e <= 2 ^ k).
-      { rewrite <- Z.pow_add_r by lia. apply Z.pow_le_mono_r; lia. }
-      assert (0 < 2 ^ e) by (apply Z.pow_pos_nonneg; lia). nia.
+      apply Z.lt_le_trans with (2 ^ 53 * 2 ^ e).
+      * apply Z.mul_lt_mono_pos_r; [apply Z.pow_pos_nonneg; lia | exact Hm].
+      * rewrite <- Z.pow_add_r by lia. apply Z.pow_le_mono_r; lia.
     + apply Z.leb_gt in E.
-      assert (Z.pos m / 2 ^ (- e) <= Z.pos m) by (apply Z.div_le_upper_bound; [apply Z.pow_pos_nonneg; lia|];
-        assert (1 <= 2 ^ (- e)) by (apply (Z.pow_le_mono_r 2 0); lia); nia).
-      assert (2 ^ 53 <= 2 ^ k) by (apply Z.pow_le_mono_r; lia). lia.
+      apply Z.le_lt_trans with (Z.pos m).
+      * apply Z.div_le_upper_bound; [apply Z.pow_pos_nonneg; lia|].
+        rewrite <- (Z.mul_1_l (Z.pos m)) at 1. apply Z.mul_le_mono_nonneg_r; [lia|].
+        apply (Z.pow_le_mono_r 2 0); lia.
+      * apply Z.lt_le_trans with (2 ^ 53); [exact Hm | apply Z.pow_le_mono_r; lia].
   - f_equal. symmetry. apply Z.compare_gt_iff. unfold tz, trunc_Z.
     replace (0 <=? e) with true by (symmetry; apply Z.leb_le; lia).
     assert (N : 2 ^ 52 <= Z.pos m) by (apply Hn; lia).
-    assert (2 ^ (k + 1) <= 2 ^ 52 * 2 ^ e).
-    { rewrite <- Z.pow_add_r by lia. apply Z.pow_le_mono_r; lia. }
-    assert (2 ^ k < 2 ^ (k + 1)) by (apply Z.pow_lt_mono_r; lia).
-    assert (0 < 2 ^ e) by (apply Z.pow_pos_nonneg; lia). nia.
+    apply Z.lt_le_trans with (2 ^ (k + 1)); [apply Z.pow_lt_mono_r; lia|].
+    apply Z.le_trans with (2 ^ 52 * 2 ^ e).
+    + rewrite <- Z.pow_add_r by lia. apply Z.pow_le_mono_r; lia.
+    + apply Z.mul_le_mono_nonneg_r; [apply Z.pow_nonneg; lia | exact N].
+Qed.
+
+Lemma valid_flip_sign : forall s m e, valid (S754_finite s m e) = valid (S754_finite (negb s) m e).
+Proof. reflexivity. Qed.
+
+Lemma pow2_pos : forall k, 0 <= k -> 0 < 2 ^ k.
+Proof. intros. apply Z.pow_pos_nonneg; lia. Qed.
+
+Lemma SFcompare_negneg : forall m1 e1 m2 e2,
+  SFcompare (S754_finite true m1 e1) (S754_finite true m2 e2) =
+  match SFcompare (S754_finite false m1 e1) (S754_finite false m2 e2) with Some c => Some (CompOpp c) | None => None end.
+Proof. intros. cbn [SFcompare]. destruct (e1 ?= e2); reflexivity. Qed.
+
+(* every well-formed finite float against +-2^k, k >= 53 *)
+Lemma cmp_pow2 : forall f k, valid f = true -> is_finite f = true -> 53 <= k ->
+  SFcompare f (S754_finite false 4503599627370496 (k - 52)) = Some (tz f ?= 2 ^ k) /\
+  SFcompare f (S754_finite true 4503599627370496 (k - 52)) = Some (tz f ?= - 2 ^ k).
+Proof.
+  intros f k V F K. pose proof (pow2_pos k ltac:(lia)) as PK.
+  destruct f as [s|s| |s m e]; try discriminate.
+  - (* zero *) change (tz (S754_zero s)) with 0. cbn [SFcompare]. split; f_equal; symmetry.
+    + apply Z.compare_lt_iff; lia.
+    + apply Z.compare_gt_iff; lia.
+  - destruct s.
+    + (* negative float *)
+      assert (V' : valid (S754_finite false m e) = true) by exact V.
+      pose proof (cmp_pos_pow2 m e k V' K) as C. pose proof (tz_finite_pos m e) as P.
+      rewrite tz_finite_neg. split.
+      * simpl. f_equal. symmetry. apply Z.compare_lt_iff. lia.
+      * rewrite Z.compare_opp. rewrite SFcompare_negneg, C. rewrite (Z.compare_antisym (tz (S754_finite false m e))). reflexivity.
+    + split.
+      * apply cmp_pos_pow2; assumption.
+      * pose proof (tz_finite_pos m e) as P. simpl. f_equal. symmetry. apply Z.compare_gt_iff. lia.
+Qed.
+
+(* SFcompare with the arguments exchanged *)
+Lemma SFcompare_swap : forall x y, SFcompare y x = match SFcompare x y with Some c => Some (CompOpp c) | None => None end.
+Proof.
+  intros x y. destruct x as [s1|s1| |s1 m1 e1]; destruct y as [s2|s2| |s2 m2 e2]; simpl; try reflexivity;
+    try (destruct s1; reflexivity); try (destruct s2; reflexivity); try (destruct s1, s2; reflexivity).
+  destruct s1, s2; try reflexivity.
+  - rewrite (Z.compare_antisym e1 e2). destruct (e1 ?= e2); simpl; try reflexivity.
+    rewrite (Pos.compare_cont_antisym m1 m2 Eq). reflexivity.
+  - rewrite (Z.compare_antisym e1 e2). destruct (e1 ?= e2); simpl; try reflexivity.
+    rewrite (Pos.compare_cont_antisym m1 m2 Eq). reflexivity.
+Qed.
+
+(* the constants as they are written by the translator *)
+Lemma c_two53 : go_float_of_int 9007199254740992 = S754_finite false 4503599627370496 (53 - 52).
+Proof. reflexivity. Qed.
+Lemma c_mtwo53 : go_float_of_int (-9007199254740992) = S754_finite true 4503599627370496 (53 - 52).
+Proof. reflexivity. Qed.
+Lemma c_two63 : go_float_of_int 9223372036854775808 = S754_finite false 4503599627370496 (63 - 52).
+Proof. reflexivity. Qed.
+Lemma c_mtwo63 : go_float_of_int (-9223372036854775808) = S754_finite true 4503599627370496 (63 - 52).
+Proof. reflexivity. Qed.
+
+Lemma ltb_compare : forall a b, (a <? b) = match a ?= b with Lt => true | _ => false end.
+Proof. reflexivity. Qed.
+Lemma leb_compare : forall a b, (a <=? b) = match a ?= b with Gt => false | _ => true end.
+Proof. reflexivity. Qed.
+
+(* f <= 2^k, f < 2^k, -2^k <= f  as integer comparisons of the integral part *)
+Lemma fle_pow2 : forall f k, valid f = true -> is_finite f = true -> 53 <= k ->
+  go_fle f (S754_finite false 4503599627370496 (k - 52)) = (tz f <=? 2 ^ k).
+Proof.
+  intros f k V F K. destruct (cmp_pow2 f k V F K) as [C _].
+  unfold go_fle, fleb, SFleb. rewrite C, leb_compare. destruct (tz f ?= 2 ^ k); reflexivity.
+Qed.
+Lemma flt_pow2 : forall f k, valid f = true -> is_finite f = true -> 53 <= k ->
+  go_flt f (S754_finite false 4503599627370496 (k - 52)) = (tz f <? 2 ^ k).
+Proof.
+  intros f k V F K. destruct (cmp_pow2 f k V F K) as [C _].
+  unfold go_flt, fltb, SFltb. rewrite C, ltb_compare. destruct (tz f ?= 2 ^ k); reflexivity.
+Qed.
+Lemma fge_mpow2 : forall f k, valid f = true -> is_finite f = true -> 53 <= k ->
+  go_fle (S754_finite true 4503599627370496 (k - 52)) f = (- 2 ^ k <=? tz f).
+Proof.
+  intros f k V F K. destruct (cmp_pow2 f k V F K) as [_ C].
+  unfold go_fle, fleb, SFleb. rewrite SFcompare_swap, C, leb_compare.
+  rewrite (Z.compare_antisym (tz f) (- 2 ^ k)). destruct (tz f ?= - 2 ^ k); reflexivity.
+Qed.
+
+(* ------------------------------------------------------------------------------------------ *)
+(* f == math.Trunc(f)  is  "f is integral" *)
+
+Lemma tz_some : forall f, is_finite f = true -> trunc_Z f = Some (tz f).
+Proof. intros [s|s| |s m e] F; try discriminate; reflexivity. Qed.
+
+Lemma tz_abs_bound : forall s m e, e < 0 -> Z.abs (tz (S754_finite s m e)) <= Z.pos m.
+Proof.
+  intros s m e E. assert (B : 0 <= tz (S754_finite false m e) <= Z.pos m).
+  { split; [apply tz_finite_pos|]. unfold tz, trunc_Z.
+    replace (0 <=? e) with false by (symmetry; apply Z.leb_gt; lia).
+    apply Z.div_le_upper_bound; [apply pow2_pos; lia|].
+    rewrite <- (Z.mul_1_l (Z.pos m)) at 1. apply Z.mul_le_mono_nonneg_r; [lia|].
+    apply (Z.pow_le_mono_r 2 0); lia. }
+  destruct s; [rewrite tz_finite_neg|]; lia.
+Qed.
+
+Lemma feq_trunc : forall f, valid f = true -> is_finite f = true -> go_feq f (go_trunc f) = is_integral f.
+Proof.
+  intros f V F. assert (NN : is_nan f = false) by (destruct f; try discriminate; reflexivity).
+  unfold go_trunc, go_feq. destruct (is_integral f) eqn:I.
+  - apply feqb_refl. exact NN.
+  - destruct f as [s|s| |s m e]; try discriminate.
+    assert (E : e < 0).
+    { unfold is_integral in I. destruct (0 <=? e) eqn:E0; [discriminate | apply Z.leb_gt in E0; lia]. }
+    rewrite (tz_some _ F). unfold float_of_Z_sgn. set (k := tz (S754_finite s m e)).
+    destruct (k =? 0) eqn:K0.
+    + rewrite feqb_zero_r. reflexivity.
+    + apply Z.eqb_neq in K0.
+      destruct (valid_finite_bounds _ _ _ V) as [Hm _].
+      pose proof (tz_abs_bound s m e E) as B. fold k in B.
+      assert (KB : Z.abs k <= two53) by (unfold two53; change (2 ^ 53) with 9007199254740992 in Hm; lia).
+      destruct (of_Z_exact k K0 KB) as [s' [m' [e' [OZ [_ [I' _]]]]]].
+      destruct (feqb (S754_finite s m e) (of_Z k)) eqn:Q; [exfalso | reflexivity].
+      destruct (feqb_true _ _ Q) as [[Z1 _]|[EQ _]]; [discriminate|].
+      rewrite <- EQ in I'. rewrite I' in I. discriminate.
+Qed.
+
+Lemma abs_leb_split : forall t b, 0 <= b -> (Z.abs t <=? b) = ((- b <=? t) && (t <=? b)).
+Proof.
+  intros t b B. destruct (Z.leb_spec (Z.abs t) b); destruct (Z.leb_spec (- b) t); destruct (Z.leb_spec t b);
+    simpl; try reflexivity; lia.
+Qed.
+
+(* ------------------------------------------------------------------------------------------ *)
+(* vm.go floatToInt *)
+
+Lemma floatToInt_cond_finite : forall s m e, valid (S754_finite s m e) = true ->
+  int_like (S754_finite s m e) = is_integral (S754_finite s m e) &&
+    ((- 2 ^ 53 <=? tz (S754_finite s m e)) && (tz (S754_finite s m e) <=? 2 ^ 53)).
+Proof.
+  intros s m e V. set (f := S754_finite s m e). unfold int_like, abs_le. rewrite (tz_some f eq_refl).
+  change (is_zero f) with false. change (is_finite f) with true. cbn [negb andb].
+  rewrite abs_leb_split by (unfold two53; lia). reflexivity.
+Qed.
+
+Lemma floatToInt_gen_tie : forall f, valid f = true ->
+  floatToInt_gen f = match Model.floatToInt f with Some k => (k, true) | None => (0, false) end.
+Proof.
+  intros f V. unfold floatToInt_gen, Model.floatToInt. rewrite go_int64_model.
+  destruct f as [s|s| |s m e].
+  - destruct s; reflexivity.
+  - destruct s; reflexivity.
+  - reflexivity.
+  - rewrite (floatToInt_cond_finite s m e V). set (F := S754_finite s m e) in *.
+    rewrite (feq_trunc F V eq_refl), c_two53, c_mtwo53.
+    rewrite (fle_pow2 F 53 V eq_refl ltac:(lia)), (fge_mpow2 F 53 V eq_refl ltac:(lia)).
+    change (go_float_of_int 0) with (S754_zero false). unfold go_feq. rewrite feqb_zero_r.
+    change (is_zero F) with false. change (go_isinf F 0) with false. cbn [negb orb andb].
+    destruct (is_integral F), (- 2 ^ 53 <=? tz F), (tz F <=? 2 ^ 53); reflexivity.
 Qed.
